@@ -559,6 +559,11 @@ def run(ctx):
                 rcases.append(Case("dsh", opts, {"FANOUT": t} if src == "e" else {}, ["/bin/true"], kind="run"))
         for extra in ([("u", "-1")], [("u", "7")], [("l", "u" * 300)], [("t", "5")], [("l", "someone")], [("u", "-4294967295")]):
             rcases.append(Case("dsh", [("R", "exec"), ("w", "h[0-2]")] + extra, {}, ["/bin/true"], kind="run"))
+        # the remote command leaves a trace, so that "refused before anything is contacted" is observable
+        touch = "/usr/bin/touch" if os.path.exists("/usr/bin/touch") else "/bin/touch"
+        for i, c in enumerate(rcases):
+            c.trace = os.path.join(ctx.scratch, "c18contacted_%d" % i)
+            c.operands = [touch, c.trace]
         rargv = [c.argv() for c in rcases]
         with concurrent.futures.ThreadPoolExecutor(max_workers=8) as ex:
             rres = list(ex.map(lambda ca: real.run("dsh", ca[1], ca[0].env, timeout=5), zip(rcases, rargv)))
@@ -581,6 +586,12 @@ def run(ctx):
                 got = m
             if got != want:
                 ctx.disagreement("opt model vs pdsh -R exec run", "impl `%s` model `%s`" % (want, m), case)
+            contacted = os.path.exists(c.trace)
+            if rc is not None and rc != 0 and contacted:
+                ctx.offender("refused-but-contacted", "pdsh refused the configuration (exit %d) but had already run the "
+                             "remote command: env %s argv %s" % (rc, c.env, a), case)
+            if rc == 0 and not contacted:
+                ctx.disagreement("pdsh -R exec run", "exit 0 but the remote command left no trace", case)
             if o is not None and sp != "ok":
                 for clause in sp.split(" "):
                     ctx.offender(clause, "real run: clause `%s` violated: env %s argv %s -> %s" % (clause, c.env, a, want),
